@@ -267,7 +267,38 @@ func (n *fNode) finalise(target common.Hash) {
 	before := n.snap()
 	valid := n.ref.Has(target)
 	n.round++
+	// a concurrent reader (RPC, sync, the network handlers read headers without the block state's
+	// lock) gets its turn between the disk writes of the finalisation: at every write the tape may
+	// let it look up any block the source ever produced. What it sees is not judged here (blocks are
+	// in flux); what must hold is that afterwards nothing of an abandoned fork is retrievable.
+	readers := k.Bool(1, 2, "reader-during-finalisation")
+	if readers {
+		pool := sortedHashes(func() map[common.Hash]bool {
+			m := map[common.Hash]bool{}
+			for h := range n.all {
+				m[h] = true
+			}
+			return m
+		}())
+		prev := n.disk.Observer
+		n.disk.Observer = func(ix int) {
+			if prev != nil {
+				prev(ix)
+			}
+			if len(pool) == 0 || !k.Bool(1, 2, "reader-at-this-write") {
+				return
+			}
+			h := pool[k.Choose(len(pool), "reader-block")]
+			_, _ = n.bs.HasHeader(h)
+			_, _ = n.bs.GetHeader(h)
+			k.Probe("read-between-writes-of-a-finalisation")
+		}
+		defer func() { n.disk.Observer = prev }()
+	}
 	err := n.bs.SetFinalisedHash(target, n.round, 0)
+	if readers {
+		n.disk.Observer = nil
+	}
 	after := n.snap()
 	if err != nil {
 		k.Event("finalise-refused", "%s valid=%v", cu.Short(target), valid)
